@@ -187,10 +187,10 @@ def main():
         'checks': checks,
         'not_applicable': na,
         'notes': 'All checks are static (ast). exit 0 holds / exit 1 VIOLATION / exit 2 ANALYSIS-ERROR (checker cannot see; never a violation). '
-                 'Genuine defects found on the pinned snapshot were repaired by 22 fix: commits in /repo (see known_findings.json "fixed" and '
+                 'Genuine defects found on the pinned snapshot were repaired by 23 fix: commits in /repo (see known_findings.json "fixed" and '
                  'DESIGN.md 6 / 10.3); one is recorded as a known finding (C11.5) and prints a KNOWN-FINDING line. Regression corpora committed '
-                 'under /verif: seeded/ (268 property-breaking changes by independent agents, tools/run_seeded.py must print missed=0; SEEDED.md '
-                 'lists which rules report which change), twins/ (341 behaviour-preserving edits, tools/run_twins.py must print noisy=0), '
+                 'under /verif: seeded/ (304 property-breaking changes by independent agents, tools/run_seeded.py must print missed=0; SEEDED.md '
+                 'lists which rules report which change), twins/ (377 behaviour-preserving edits and benign behaviour changes, tools/run_twins.py must print noisy=0), '
                  'selftest/ (in-memory mutants and twins run by the thorough tier).',
     }
     with open(os.path.join(HERE, 'MANIFEST.json'), 'w') as fh:
